@@ -145,6 +145,10 @@ AliasExact == (\A s \in (0..(NLines - 1)) \cup OutputSlots :
                   SF(s) # s => Loc(s) = Loc(SF(s)) /\ Cap(s) = Cap(SF(s))) \/ Fail("C08", "AliasExact")
 \* C08: no two distinct interface input slots share memory (they are all live from start to end)
 InputsDisjoint == (\A s, t \in InputSlots \cup Scratch : s # t => Region(s) \cap Region(t) = {}) \/ Fail("C08", "InputsDisjoint")
+\* C08: the scratch slots (used as temporaries by the multi-valued evaluation of complex gates and as sink of gates
+\* with unconnected output) share memory with no signal - they are live during the whole propagation
+ScratchPrivate == (\A t \in Scratch : Mapped(t) /\ \A s \in 0..(NSlots - 1) :
+                      (s # t /\ Loc(s) >= 0) => Region(s) \cap Region(t) = {}) \/ Fail("C08", "ScratchPrivate")
 \* sanity of the published data the harness extracted (machinery, not a verdict)
 WellFormedCase == /\ NSlots = PpoOff + NS
                   /\ \A o \in 1..NOps : \A k \in 1..5 : C.ops[o][k] \in 0..(NSlots - 1)
